@@ -93,3 +93,9 @@ Theorem c04_answers_are_never_retracted : forall e c a b t,
   (rets t (c_trace (exec e c a)) <= rets t (c_trace (exec e c (a ++ b))))%nat.
 Proof. exact answers_are_never_retracted. Qed.
 Print Assumptions c04_answers_are_never_retracted.
+
+(** the cursor of the wrapped iterator (the number of elements it has yielded) never moves back *)
+Theorem c04_source_cursor_never_rewinds : forall e c a b,
+  (s_cur (c_sh (exec e c a)) <= s_cur (c_sh (exec e c (a ++ b))))%N.
+Proof. exact source_cursor_never_rewinds. Qed.
+Print Assumptions c04_source_cursor_never_rewinds.
